@@ -36,6 +36,65 @@ SYNC_KINDS = ['file', 'file', 'file-noclose', 'iter', 'iter', 'iter-noclose', 'g
 ASYNC_OF = {'file': 'afile', 'file-noclose': 'afile-noclose', 'iter': 'aiter', 'iter-noclose': 'aiter-noclose', 'gen': 'agen'}
 SUPPORTED_MEDIA_TYPES = ('application/json',)
 
+# Response headers an APPLICATION may set that speak about message framing / the connection (RFC 9110 7.6-7.8, RFC 9112 6-7): to the
+# framework they are headers like any other - whatever they say, it frames a non-streamed body itself (exact Content-Length).
+# name (several spellings: header names are case-insensitive) -> values
+FRAMING = {
+    'Transfer-Encoding': ['chunked', 'identity', 'gzip', 'gzip, chunked'],
+    'Connection': ['close', 'keep-alive', 'upgrade', 'Transfer-Encoding'],
+    'Content-Encoding': ['gzip', 'identity', 'br'],
+    'Trailer': ['X-Checksum', 'Expires'],
+    'TE': ['trailers', 'gzip;q=0.5'],
+    'Upgrade': ['h2c', 'websocket'],
+    'Keep-Alive': ['timeout=5, max=100'],
+    'Content-Range': ['bytes 0-4/5'],
+}
+FRAMING_HOW = ['set', 'set', 'append', 'dict', 'pairs']   # set_header / append_header / set_headers({..}) / set_headers([(..)])
+
+
+def _spell(rnd, name):
+    return rnd.choice([name, name, name.lower(), name.upper()])
+
+
+def gen_framing(rnd):
+    """0-3 framing / connection headers the application puts on the response, each by one of the four public ways; Transfer-Encoding
+    is over-represented (it is the one header that makes Content-Length "forbidden" by RFC 9112 6.2) and is sometimes built from two
+    append_header calls.  [[how, name as spelled, value], ...] in call order."""
+    ops = []
+    names = rnd.sample(sorted(FRAMING), rnd.choice([1, 1, 2, 3]))
+    if rnd.random() < 0.5 and 'Transfer-Encoding' not in names:
+        names[rnd.randrange(len(names))] = 'Transfer-Encoding'
+    for name in names:
+        if name == 'Transfer-Encoding' and rnd.random() < 0.2:
+            ops += [['append', _spell(rnd, name), 'gzip'], ['append', _spell(rnd, name), 'chunked']]
+        else:
+            ops.append([rnd.choice(FRAMING_HOW), _spell(rnd, name), rnd.choice(FRAMING[name])])
+    return ops
+
+
+def framing_assignments(p):
+    """the header dict assignments (lower-case name, value) the plan's framing calls amount to, by the documentation of
+    set_header / append_header (joins with ', ') / set_headers"""
+    out, cur = [], {}
+    for how, name, value in p.get('framing') or []:
+        k = name.lower()
+        v = cur[k] + ', ' + value if how == 'append' and k in cur else value
+        cur[k] = v
+        out.append((k, v))
+    return out
+
+
+def right_length(p):
+    """the number of body bytes the plan's winning non-streamed source amounts to (None: streamed / not serialisable / no source)"""
+    src = effective_source(p)
+    if src == 'text':
+        return len(p['text'].encode('utf-8'))
+    if src == 'data':
+        return len(p['data'])
+    if src == 'media' and p['media'] != 'unserialisable':
+        return len(media_bytes(p['media']))
+    return None
+
 
 def norm_cookie(v):
     """unset_cookie() renders `expires` relative to the clock at output time: not part of any comparison."""
@@ -78,6 +137,7 @@ async def cancelled_here():
     await fut
 
 
+STATUS_BODY_TEXT = 'accépted-by-HTTPStatus'   # the body of the raise kind 'status_body'
 NONE = 'N'   # an item of a stream's hand-out sequence: the stream returns / yields None at that call (ASGI only)
 
 
@@ -269,7 +329,7 @@ def gen_hist(rnd, p):
     return ops
 
 
-def gen_plan(rnd, sse_ok=True, errors_ok=True, hist_ok=False, none_ok=False, obj_ok=False):
+def gen_plan(rnd, sse_ok=True, errors_ok=True, hist_ok=False, none_ok=False, obj_ok=False, framing_ok=False):
     form, value, code = rnd.choice(STATUSES)
     p = {'status_form': form, 'status': value, 'code': code, 'method': rnd.choice(METHODS)}
     srcs = rnd.sample(['text', 'data', 'media', 'stream'], rnd.choice([0, 1, 1, 1, 1, 2, 2, 3, 4]))
@@ -316,6 +376,19 @@ def gen_plan(rnd, sse_ok=True, errors_ok=True, hist_ok=False, none_ok=False, obj
     if hist_ok and rnd.random() < 0.35:
         p['hist'] = gen_hist(rnd, p)
         p['hist_hdr_first'] = rnd.random() < 0.5
+    if framing_ok:
+        # (C05) headers set by the application that interact with framing: an explicit Content-Length that is RIGHT for the body
+        # (the pool above only has wrong ones), the way the explicit Content-Length is set, framing / connection headers, and a raised
+        # HTTPStatus that carries a body
+        if p['cl'] is not None and right_length(p) is not None and rnd.random() < 0.4:
+            p['cl'] = rnd.choice([str, int])(right_length(p))
+        if p['cl'] is not None:
+            p['cl_how'] = rnd.choice(['property', 'property', 'set', 'dict', 'pairs'])
+        if rnd.random() < 0.4:
+            p['framing'] = gen_framing(rnd)
+            p['framing_first'] = rnd.random() < 0.5
+        if p['raise'] == 'status' and rnd.random() < 0.5:
+            p['raise'] = 'status_body'
     return p
 
 
@@ -412,6 +485,8 @@ def header_assignments(p):
     """The header dict assignments (lower-case name, value) the header block of fill() amounts to, in order - by the
     documentation of set_header / append_header / content_length / content_type."""
     out = []
+    if p.get('framing_first'):
+        out += framing_assignments(p)
     if p['xa'] is not None:
         out.append(('x-a', p['xa']))
     if p['xappend']:
@@ -420,6 +495,8 @@ def header_assignments(p):
         out.append(('content-length', str(p['cl'])))
     if p['ct'] is not None:
         out.append(('content-type', p['ct']))
+    if not p.get('framing_first'):
+        out += framing_assignments(p)
     return out
 
 
@@ -607,14 +684,35 @@ def fill(resp, p, asgi, snapshot=None):
     return probe
 
 
+def _set_by(resp, how, name, value):
+    if how == 'append':
+        resp.append_header(name, value)
+    elif how == 'dict':
+        resp.set_headers({name: value})
+    elif how == 'pairs':
+        resp.set_headers([(name, value)])
+    else:
+        resp.set_header(name, value)
+
+
+def _fill_framing(resp, p):
+    for how, name, value in p.get('framing') or []:
+        _set_by(resp, how, name, value)
+
+
 def _fill_headers(resp, p):
+    if p.get('framing_first'):
+        _fill_framing(resp, p)
     if p['xa'] is not None:
         resp.set_header('X-A', p['xa'])
     if p['xappend']:
         resp.append_header('X-B', 'one')
         resp.append_header('X-B', 'two')
     if p['cl'] is not None:
-        resp.content_length = p['cl']
+        if p.get('cl_how', 'property') == 'property':
+            resp.content_length = p['cl']
+        else:
+            _set_by(resp, p['cl_how'], 'Content-Length', str(p['cl']))
     if p['ct'] is not None:
         resp.content_type = p['ct']
     if p['extra_set_cookie']:
@@ -623,6 +721,8 @@ def _fill_headers(resp, p):
         resp.set_cookie('a', 'b')
     if p['unset_cookie']:
         resp.unset_cookie('z')
+    if not p.get('framing_first'):
+        _fill_framing(resp, p)
 
 
 def _await_now(coro):
@@ -640,12 +740,16 @@ def _raise(p):
     k = p['raise']
     if k == 'notfound':
         raise falcon.HTTPNotFound(description='nope')
+    # the framing / connection headers of the plan also travel on the raised HTTPError / HTTPStatus (their `headers` argument)
+    extra = dict(framing_assignments(p))
     if k == 'httperror':
-        raise falcon.HTTPError(falcon.HTTP_409, title='T', description='D', headers={'X-Err': '1'})
+        raise falcon.HTTPError(falcon.HTTP_409, title='T', description='D', headers=dict({'X-Err': '1'}, **extra))
     if k == 'redirect':
         raise falcon.HTTPMovedPermanently('/elsewhere')
     if k == 'status':
-        raise falcon.HTTPStatus(falcon.HTTP_204, headers={'X-St': '1'})
+        raise falcon.HTTPStatus(falcon.HTTP_204, headers=dict({'X-St': '1'}, **extra))
+    if k == 'status_body':
+        raise falcon.HTTPStatus(falcon.HTTP_202, text=STATUS_BODY_TEXT, headers=dict({'X-St': '1'}, **extra))
     raise RuntimeError('boom')
 
 
